@@ -44,6 +44,17 @@ def run(ctx):
     for need in ("rules_ok", "rules_ok_with_clear", "rules_fail_missing", "rules_fail_cfa", "rules_fail_ra", "rules_fail_norecord"):
         if rep2["classes"].get(need, 0) == 0:
             raise core.ToolFailure("vacuous replay: class %s never exercised" % need)
+    # ---- STACK CFI through a real 32-bit register context (CfiStackWalker + the x86 walker): the cfi / cfi_big rule shapes of
+    # WalkerX86.tla state the documented outcome (values that do not fit the register leave it unknown, caller-saved registers are
+    # never forwarded); here a disagreement is a violation of C06, not drift
+    wx = ctx.tlc("WalkerX86", "MC_WalkerX86_any", coverage=False, timeout=3000, out_name="walkerx86_any")
+    if wx.violated:
+        raise core.ToolFailure("invariant %s of WalkerX86.tla is violated in the model" % wx.violated)
+    rep3 = ctx.read_harness_report(ctx.harness("replay_walk", ["x86", wx.out_path, ctx.work / "x86_any.trace.ndjson"], out_name="replay_x86_strict.out",
+                                               timeout=3000, env={"VERIF_STRICT_RULES": "cfi,cfi_big"}))
+    for need in ("rule:cfi", "rule:cfi_big"):
+        if rep3["classes"].get(need, 0) == 0:
+            raise core.ToolFailure("vacuous replay: no walk under rule shape %s" % need)
     # ---- V: random long programs validated by the trace spec
     nprog = 600 if tier == "quick" else 6000
     tr = ctx.harness("record_cfi", [nprog], out_name="cfi_trace.ndjson")
